@@ -10,7 +10,7 @@
    exit. *)
 From Coq Require Import List ZArith Bool Arith Lia Permutation.
 From NT Require Import Sx Rose ListFacts RoseFacts Surgery SurgeryFacts Machine WF MachineFacts
-  PreserveSteps PreserveOps PreserveSort PreserveMore Invariant Effects Refusal.
+  PreserveSteps PreserveOps PreserveSort PreserveMore Invariant Effects RefusalC13.
 Import ListNotations.
 
 (* [keeps_eq w r]: an error exit returns the world itself (not even an allocation) *)
